@@ -51,6 +51,11 @@ pub struct Case {
     /// many tests use them: no valid address for the chain's Api, yet usable as sender, creator, admin
     #[serde(default)]
     pub plain_accounts: u8,
+    /// the property this case is run for (empty: all). A mismatch that belongs only to OTHER properties and
+    /// leaves the real chain and the model in step (an observation differs, no outcome or state does) does
+    /// not end the run: the run goes on looking for this property's own symptom
+    #[serde(default)]
+    pub focus: String,
     pub ops: Vec<Op>,
 }
 
@@ -68,6 +73,7 @@ pub struct Sim {
     pub step_digs: Vec<u64>,
     malformed_before: u64,
     not_admin_before: u64,
+    focus: String,
     /// handle on the repo's CachingCustomHandler state, when it is plugged in
     pub caching: Option<cw_multi_test::custom_handler::CachingCustomHandlerState<SimMsg, SimQuery>>,
     pub custom_execs_seen: Vec<String>,
@@ -262,6 +268,7 @@ impl Sim {
             step_digs: vec![],
             malformed_before: 0,
             not_admin_before: 0,
+            focus: case.focus.clone(),
             caching,
             custom_execs_seen: vec![],
             custom_queries_seen: vec![],
@@ -274,6 +281,31 @@ impl Sim {
     }
 
     fn v(&mut self, props: &[&str], class: &str, detail: String) {
+        const SOFT: [&str; 19] = [
+            "module_call_mismatch",
+            "caching_handler",
+            "events_mismatch",
+            "data_mismatch",
+            "sender",
+            "funds",
+            "block",
+            "reply_id_payload",
+            "reply_events",
+            "reply_data",
+            "in_tx_query",
+            "in_call_read",
+            "read_back",
+            "query_answer",
+            "query_not_repeatable",
+            "accessor_mismatch",
+            "code_info",
+            "code_checksum",
+            "served_by_wrong_code",
+        ];
+        if !self.focus.is_empty() && !props.contains(&self.focus.as_str()) && SOFT.contains(&class) {
+            self.stats.probe("foreign_observation_mismatch_passed_over");
+            return;
+        }
         for p in props {
             let cl = format!("{}.{}", p, class);
             if !self.viol.iter().any(|x| x.property == *p) {
